@@ -7,12 +7,12 @@ namespace Orbit
 /-! ## the repaired `Sync` never panics -/
 
 /-- the repaired pre-check loop either refuses the message or hands a list to the replicator -/
-theorem syncHeads_load_or_err (acl : Acl) (hs : List RawHead) (acc : List Entry) :
-    (∃ es, syncHeads acl hs acc = .load es) ∨ syncHeads acl hs acc = .err := by
+theorem syncHeads0_load_or_err (acl : Acl) (hs : List RawHead) (acc : List Entry) :
+    (∃ es, syncHeads0 acl hs acc = .load es) ∨ syncHeads0 acl hs acc = .err := by
   induction hs generalizing acc with
   | nil => exact .inl ⟨_, rfl⟩
   | cons h hs ih =>
-    unfold syncHeads
+    unfold syncHeads0
     split
     · exact ih acc
     · split
@@ -22,9 +22,9 @@ theorem syncHeads_load_or_err (acl : Acl) (hs : List RawHead) (acc : List Entry)
         · exact ih _
 
 /-- **C1.** -/
-theorem syncHeads_never_panics (acl : Acl) (hs : List RawHead) (acc : List Entry) :
-    syncHeads acl hs acc ≠ .panic := by
-  rcases syncHeads_load_or_err acl hs acc with ⟨es, h⟩ | h <;> rw [h] <;> simp
+theorem syncHeads0_never_panics (acl : Acl) (hs : List RawHead) (acc : List Entry) :
+    syncHeads0 acl hs acc ≠ .panic := by
+  rcases syncHeads0_load_or_err acl hs acc with ⟨es, h⟩ | h <;> rw [h] <;> simp
 
 theorem handleMessage_load_or_err (acl : Acl) (m : Decoded) :
     (∃ es, handleMessage acl m = .load es) ∨ handleMessage acl m = .err := by
@@ -32,7 +32,7 @@ theorem handleMessage_load_or_err (acl : Acl) (m : Decoded) :
   split
   · exact .inl ⟨_, rfl⟩
   · exact .inl ⟨_, rfl⟩
-  · exact syncHeads_load_or_err acl _ []
+  · exact syncHeads0_load_or_err acl _ []
 
 theorem handleMessage_never_panics (acl : Acl) (m : Decoded) : handleMessage acl m ≠ .panic := by
   rcases handleMessage_load_or_err acl m with ⟨es, h⟩ | h <;> rw [h] <;> simp
@@ -40,17 +40,17 @@ theorem handleMessage_never_panics (acl : Acl) (m : Decoded) : handleMessage acl
 /-! ## what is handed to the replicator -/
 
 /-- a head is handed to the replicator iff it is complete and the access controller admits it -/
-def RawHead.loadable (acl : Acl) (h : RawHead) : Bool := h.complete && acl.canAppend h.entry
+def RawHead.loadable0 (acl : Acl) (h : RawHead) : Bool := h.complete && acl.canAppend h.entry
 
 /-- what a successful pre-check hands over is exactly: the accumulator so far, then the entries
 of the complete, admitted heads, in message order -/
-theorem syncHeads_load_eq (acl : Acl) (hs : List RawHead) (acc es : List Entry)
-    (h : syncHeads acl hs acc = .load es) :
-    es = acc.reverse ++ (hs.filter (RawHead.loadable acl)).map RawHead.entry := by
+theorem syncHeads0_load_eq (acl : Acl) (hs : List RawHead) (acc es : List Entry)
+    (h : syncHeads0 acl hs acc = .load es) :
+    es = acc.reverse ++ (hs.filter (RawHead.loadable0 acl)).map RawHead.entry := by
   induction hs generalizing acc with
-  | nil => simp only [syncHeads] at h; injection h with h; simp [h]
+  | nil => simp only [syncHeads0] at h; injection h with h; simp [h]
   | cons x hs ih =>
-    unfold syncHeads at h
+    unfold syncHeads0 at h
     by_cases hc : x.complete
     · simp only [hc, Bool.not_true, Bool.false_eq_true, if_false] at h
       by_cases ha : acl.canAppend x.entry
@@ -58,53 +58,53 @@ theorem syncHeads_load_eq (acl : Acl) (hs : List RawHead) (acc es : List Entry)
         split at h
         · cases h
         · have step := ih _ h
-          simp [step, RawHead.loadable, hc, ha]
+          simp [step, RawHead.loadable0, hc, ha]
       · simp only [ha, Bool.not_false, if_true] at h
-        simp [ih _ h, RawHead.loadable, hc, ha]
+        simp [ih _ h, RawHead.loadable0, hc, ha]
     · simp only [hc, Bool.not_false, if_true] at h
-      simp [ih _ h, RawHead.loadable, hc]
+      simp [ih _ h, RawHead.loadable0, hc]
 
 /-- **C2.** (equality form) starting from nothing, the heads loaded are exactly the entries of the
 complete heads of the message that the access controller admits, in order; null heads, heads missing
 identity / clock / hash and refused heads are never handed over -/
-theorem syncHeads_loads_exactly_loadable (acl : Acl) (hs : List RawHead) (es : List Entry)
-    (h : syncHeads acl hs [] = .load es) :
-    es = (hs.filter (RawHead.loadable acl)).map RawHead.entry := by
-  simpa using syncHeads_load_eq acl hs [] es h
+theorem syncHeads0_loads_exactly_loadable (acl : Acl) (hs : List RawHead) (es : List Entry)
+    (h : syncHeads0 acl hs [] = .load es) :
+    es = (hs.filter (RawHead.loadable0 acl)).map RawHead.entry := by
+  simpa using syncHeads0_load_eq acl hs [] es h
 
 /-- **C2.** -/
-theorem syncHeads_loads_only_complete (acl : Acl) (hs : List RawHead) (es : List Entry)
-    (h : syncHeads acl hs [] = .load es) :
+theorem syncHeads0_loads_only_complete (acl : Acl) (hs : List RawHead) (es : List Entry)
+    (h : syncHeads0 acl hs [] = .load es) :
     es.Sublist ((hs.filter RawHead.complete).map RawHead.entry) ∧
     ∀ e ∈ es, ∃ r ∈ hs, r.complete = true ∧ acl.canAppend r.entry = true ∧ r.entry = e := by
-  have heq := syncHeads_loads_exactly_loadable acl hs es h
+  have heq := syncHeads0_loads_exactly_loadable acl hs es h
   subst heq
   refine ⟨?_, ?_⟩
-  · have hf : hs.filter (RawHead.loadable acl) =
+  · have hf : hs.filter (RawHead.loadable0 acl) =
         (hs.filter RawHead.complete).filter (fun r => acl.canAppend r.entry) := by
-      rw [List.filter_filter]; congr 1; funext r; simp [RawHead.loadable, Bool.and_comm]
+      rw [List.filter_filter]; congr 1; funext r; simp [RawHead.loadable0, Bool.and_comm]
     rw [hf]
     exact List.filter_sublist.map _
   · intro e he
-    simp only [List.mem_map, List.mem_filter, RawHead.loadable, Bool.and_eq_true] at he
+    simp only [List.mem_map, List.mem_filter, RawHead.loadable0, Bool.and_eq_true] at he
     obtain ⟨r, ⟨hr, hc, ha⟩, rfl⟩ := he
     exact ⟨r, hr, hc, ha, rfl⟩
 
 /-- Refutation witness for the tree before the last repair (finding F18): a complete head that the
 access controller refuses was still handed to the replicator -/
 theorem refused_head_was_loaded (e : Entry) :
-    syncHeadsLoadsRefused {} [{ entry := e }] [] = .load [e] ∧ syncHeads {} [{ entry := e }] [] = .load [] := by
-  constructor <;> simp [syncHeadsLoadsRefused, syncHeads, RawHead.complete, Acl.canAppend]
+    syncHeadsLoadsRefused {} [{ entry := e }] [] = .load [e] ∧ syncHeads0 {} [{ entry := e }] [] = .load [] := by
+  constructor <;> simp [syncHeadsLoadsRefused, syncHeads0, RawHead.complete, Acl.canAppend]
 
 /-- **C3.** (any accumulator) -/
-theorem syncHeads_hash_acc (acl : Acl) (hs : List RawHead) (acc es : List Entry)
-    (h : syncHeads acl hs acc = .load es) :
+theorem syncHeads0_hash_acc (acl : Acl) (hs : List RawHead) (acc es : List Entry)
+    (h : syncHeads0 acl hs acc = .load es) :
     ∀ r ∈ hs, r.complete = true → acl.canAppend r.entry = true → r.entry.hashOk = true := by
   induction hs generalizing acc with
   | nil => intro r hr; cases hr
   | cons x hs ih =>
     intro r hr hc hca
-    unfold syncHeads at h
+    unfold syncHeads0 at h
     rcases List.mem_cons.1 hr with rfl | hr
     · simp only [hc, hca, Bool.not_true, Bool.false_eq_true, if_false] at h
       split at h
@@ -120,17 +120,17 @@ theorem syncHeads_hash_acc (acl : Acl) (hs : List RawHead) (acc es : List Entry)
 
 /-- **C3.** a message is only loaded if every complete head that the access controller admits
 carries a hash matching its content -/
-theorem syncHeads_hash (acl : Acl) (hs : List RawHead) (es : List Entry)
-    (h : syncHeads acl hs [] = .load es) :
+theorem syncHeads0_hash (acl : Acl) (hs : List RawHead) (es : List Entry)
+    (h : syncHeads0 acl hs [] = .load es) :
     ∀ r ∈ hs, r.complete = true → acl.canAppend r.entry = true → r.entry.hashOk = true :=
-  syncHeads_hash_acc acl hs [] es h
+  syncHeads0_hash_acc acl hs [] es h
 
 /-- conversely a complete, admitted head with a wrong hash refuses the whole message -/
-theorem syncHeads_err_of_bad_hash (acl : Acl) (hs : List RawHead) (acc : List Entry) (r : RawHead)
+theorem syncHeads0_err_of_bad_hash (acl : Acl) (hs : List RawHead) (acc : List Entry) (r : RawHead)
     (hr : r ∈ hs) (hc : r.complete = true) (hca : acl.canAppend r.entry = true)
-    (hbad : r.entry.hashOk = false) : syncHeads acl hs acc = .err := by
-  rcases syncHeads_load_or_err acl hs acc with ⟨es, h⟩ | h
-  · have := syncHeads_hash_acc acl hs acc es h r hr hc hca
+    (hbad : r.entry.hashOk = false) : syncHeads0 acl hs acc = .err := by
+  rcases syncHeads0_load_or_err acl hs acc with ⟨es, h⟩ | h
+  · have := syncHeads0_hash_acc acl hs acc es h r hr hc hca
     rw [hbad] at this; cases this
   · exact h
 
@@ -174,6 +174,53 @@ theorem syncPinned_agrees_on_complete (acl : Acl) (hs : List RawHead) (acc : Lis
     unfold syncPinned syncHeadsLoadsRefused
     simp only [RawHead.complete, h1, h2, h3, h4, hax, ih', Bool.not_true, Bool.not_false,
       Bool.and_self, Bool.or_false, Bool.false_eq_true, if_false]
+
+/-! ## the store's own log id -/
+
+/-- a head is handed to the replicator iff it is complete, was written for this log, and the access
+controller admits it -/
+def RawHead.loadable (acl : Acl) (id : Nat) (h : RawHead) : Bool :=
+  h.complete && h.entry.logId == id && acl.canAppend h.entry
+
+theorem filter_ownLog_loadable0 (acl : Acl) (id : Nat) (hs : List RawHead) :
+    (hs.filter (ownLog id)).filter (RawHead.loadable0 acl) = hs.filter (RawHead.loadable acl id) := by
+  rw [List.filter_filter]
+  congr 1
+  funext h
+  unfold RawHead.loadable0 RawHead.loadable ownLog
+  cases h.complete <;> cases (h.entry.logId == id) <;> cases acl.canAppend h.entry <;> rfl
+
+/-- **what `Sync` hands to the replicator** (equality form): exactly the entries of the complete
+heads of the message that were written for this log and that the access controller admits, in order -/
+theorem syncHeads_loads_exactly_loadable (acl : Acl) (id : Nat) (hs : List RawHead) (es : List Entry)
+    (h : syncHeads acl id hs [] = .load es) :
+    es = (hs.filter (RawHead.loadable acl id)).map RawHead.entry := by
+  unfold syncHeads at h
+  rw [syncHeads0_loads_exactly_loadable acl _ es h, filter_ownLog_loadable0]
+
+theorem syncHeads_loads_only_own_admitted (acl : Acl) (id : Nat) (hs : List RawHead) (es : List Entry)
+    (h : syncHeads acl id hs [] = .load es) :
+    ∀ e ∈ es, ∃ r ∈ hs, r.complete = true ∧ r.entry.logId = id ∧ acl.canAppend r.entry = true ∧ r.entry = e := by
+  have heq := syncHeads_loads_exactly_loadable acl id hs es h
+  subst heq
+  intro e he
+  simp only [List.mem_map, List.mem_filter, RawHead.loadable, Bool.and_eq_true, beq_iff_eq] at he
+  obtain ⟨r, ⟨hr, ⟨hc, hl⟩, ha⟩, rfl⟩ := he
+  exact ⟨r, hr, hc, hl, ha, rfl⟩
+
+theorem syncHeads_never_panics (acl : Acl) (id : Nat) (hs : List RawHead) (acc : List Entry) :
+    syncHeads acl id hs acc ≠ .panic := syncHeads0_never_panics acl _ acc
+
+/-- Refutation witness for the tree before the repair of finding F21: a complete head written for
+ANOTHER log by a permitted writer was handed to the replicator (which counted it in the replication
+status before dropping it) -/
+theorem foreign_head_was_loaded (e : Entry) (h : e.logId = 2) (hk : e.key = e.ident) (hi : e.identOk = true)
+    (hh : e.hashOk = true) :
+    syncHeadsLoadsForeign { wildcard := true } [{ entry := e }] [] = .load [e] ∧
+    syncHeads { wildcard := true } 1 [{ entry := e }] [] = .load [] := by
+  constructor
+  · simp [syncHeadsLoadsForeign, syncHeads0, RawHead.complete, Acl.canAppend, hk, hi, hh]
+  · simp [syncHeads, ownLog, RawHead.complete, h, syncHeads0]
 
 /-! ## the listener carries no state between messages -/
 
@@ -224,10 +271,10 @@ private def isErr : SyncOutcome → Bool | .err => true | _ => false
 private def isPanic : SyncOutcome → Bool | .panic => true | _ => false
 
 -- null and incomplete heads are skipped; the complete ones are loaded in order
-example : isLoad (syncHeads acl7 [{ isNull := true }, { entry := e1 }, { hasClock := false }, { entry := e2 }] [])
+example : isLoad (syncHeads0 acl7 [{ isNull := true }, { entry := e1 }, { hasClock := false }, { entry := e2 }] [])
     [1, 2] = true := by decide
 -- a bad hash on an admitted head refuses the message
-example : isErr (syncHeads acl7 [{ entry := e1 }, { entry := eBad }] []) = true := by decide
+example : isErr (syncHeads0 acl7 [{ entry := e1 }, { entry := eBad }] []) = true := by decide
 -- the pinned tree panics on the same null head
 example : isPanic (syncPinned acl7 [{ entry := e1 }, { isNull := true }] []) = true := by decide
 example : isLoad (syncPinned acl7 [{ entry := e1 }, { entry := e2 }] []) [1, 2] = true := by decide
